@@ -434,6 +434,14 @@ def syscall_case(rng, name, nlookups, style, same_ts=False):
     a = PL.good_args(name) or [1, 2, 3, 4]
     paths = distinct_paths(rng, nlookups)
     vnodes = [rng.randrange(1, 1 << 48) for _ in range(nlookups)]
+    if nlookups >= 2 and rng.random() < 0.3:
+        # two lookups of ONE vnode under spellings that differ only in case / unicode normal form / blanks / redundant
+        # separators (a case-insensitive volume, a rename that changes the case): still two different texts
+        from .. import nearmiss
+        i, j = rng.sample(range(nlookups), 2)
+        a_, b_ = nearmiss.twins(rng, paths[i][:100])
+        if len(b_.encode()) <= 184 and len(a_.encode()) <= 184 and '"' not in b_ and ',' not in b_:
+            paths[i], paths[j], vnodes[j] = a_, b_, vnodes[i]
     if style != 'contiguous':
         noise_other(s, rng)
     s.ev(name, START, tid, a)
